@@ -29,6 +29,7 @@ import coreprop
 import impl
 import lib
 import leaftie
+import routasttie
 import heaptie
 from lib import coq_bool, coq_list, coq_nat
 from universe import LEAVES, cname, src_ty
@@ -36,6 +37,7 @@ from universe import LEAVES, cname, src_ty
 COQ_TARGETS = ["theories/Props/C13.vo", "theories/Model/CoreTables.vo"]
 COQ_TARGETS = COQ_TARGETS + [t for t in leaftie.COQ_TARGETS if t not in COQ_TARGETS]
 COQ_TARGETS = COQ_TARGETS + [t for t in heaptie.COQ_TARGETS if t not in COQ_TARGETS]
+COQ_TARGETS = COQ_TARGETS + [t for t in routasttie.COQ_TARGETS if t not in COQ_TARGETS]
 THEOREMS = ["C13_passthrough", "C13_valid_fuel_mono", "C13_results_valid", "C13_idempotent",
             "C13_defaults_guard_sound", "C13_wf_guard_sound", "C13_refuted_idem_nonconforming_default",
             "C13_refuted_idem_general_union"]
@@ -596,6 +598,7 @@ def correspond(run: lib.Run):
     # PassLaws / IdemLaws are theorems of the scalar model (Props/LeafBridge.v: C13_passthrough_from_scalar_model ...);
     # every scalar leaf call recorded on this run is re-evaluated on that scalar model
     lib.run_tie(run, leaftie, groups=groups[:n_groups], tag="c13", props=False, streams=False)
+    lib.run_tie(run, routasttie, props=False)      # the __call__ bodies of the composite routine classes, parsed and translated on this run, ARE Core's steps (Props/RoutineAst.v)
     lib.run_tie(run, heaptie, props=False, n_groups=run.budget(10, 60), seed_offset=13)      # C13H_*: same object vs equal fresh copy per position
     _state["law_fails"] = sample_laws(run, groups, records)
     run.log("laws sampled")
